@@ -241,11 +241,16 @@ Theorem generated_alias_fresh : forall lower p reserved, (forall k, lower (gen_n
 Proof. exact select_item_alias_fresh. Qed.
 Print Assumptions generated_alias_fresh.
 
-(* FULL STATEMENT for columns compared CASE-INSENSITIVELY (what SQLite, MySQL, SQL Server do) -- the repair of F33b.
+(* the source has the repair of finding F33b (6cdd79f): the column-name generator skips the reserved column names
+   (regenerated from /repo on every run; the translator accepts no other shape) *)
+Theorem c09_column_names_reserved : GenIdentDialect.col_names_reserved = true.
+Proof. vm_compute. reflexivity. Qed.
+Print Assumptions c09_column_names_reserved.
+
+(* FULL STATEMENT for columns compared CASE-INSENSITIVELY (what SQLite, MySQL, SQL Server do), for every reserved set.
    If every name that reaches the split from outside is a user name whose lower-cased form is reserved, or a generated,
    unreserved name (made by an earlier call), then a generated name of the split differs case-insensitively from EVERY
-   other name of the split.  True of the model for every reserved set; it speaks about the code when the reserved set is
-   the one the code has (see generated_column_names_ci below). *)
+   other name of the split. *)
 Theorem generated_column_names_ci_fresh : forall lower p reserved cols n l n',
   (forall k, lower (gen_name p k) = gen_name p k) ->
   (forall u, (exists d b, In (d, b) cols /\ (b = Some u \/ d = DSingle (Some u))) ->
@@ -255,43 +260,17 @@ Theorem generated_column_names_ci_fresh : forall lower p reserved cols n l n',
 Proof. exact (fun lower p reserved cols n l n' St => split_names_ci_fresh lower p reserved St cols n l n'). Qed.
 Print Assumptions generated_column_names_ci_fresh.
 
-(* ... and it is FALSE when nothing is reserved (the source without the repair): finding F33b.  A user column that is a
-   case variant of a generated name (_EXPR_0) next to an unnamed computed column. *)
-Theorem generated_column_names_ci_refuted :
-  exists cols n l n', split_names lower_ascii cprefix [] cols [] n = Some (l, n') /\
-    exists x y k, In x (somes l) /\ In y (somes l) /\ x = gen_name cprefix k /\ x <> y /\ lower_ascii x = lower_ascii y.
-Proof.
-  exists [(DSingle (Some (upper_ascii cprefix ++ [48])), None); (DCompute, None)], 0.
-  eexists _, _. split; [vm_compute; reflexivity|].
-  exists (gen_name cprefix 0), (upper_ascii cprefix ++ [48]), 0. vm_compute.
-  split; [right; left; reflexivity|]. split; [left; reflexivity|]. split; [reflexivity|]. split; [discriminate | reflexivity].
-Qed.
-Print Assumptions generated_column_names_ci_refuted.
-
-(* PARTIAL (every reserved set, in particular none): it holds whenever no name reaching the split is a case variant of a
-   generated name (the spelling of the generated name itself is harmless: exact comparison handles it) *)
-Theorem generated_column_names_ci_partial : forall lower p reserved cols n l n',
-  (forall k, lower (gen_name p k) = gen_name p k) ->
-  (forall u k, (exists d b, In (d, b) cols /\ (b = Some u \/ d = DSingle (Some u))) -> lower u = gen_name p k -> u = gen_name p k) ->
-  split_names lower p reserved cols [] n = Some (l, n') ->
-  forall x y k, In x (somes l) -> In y (somes l) -> x = gen_name p k -> lower y = lower x -> y = x.
-Proof. exact (fun lower p reserved cols n l n' St => split_names_ci_partial lower p reserved St cols n l n'). Qed.
-Print Assumptions generated_column_names_ci_partial.
-
-(* what is true of THE SOURCE AS IT IS (the flag is regenerated from /repo on every run): with the repair the full
-   statement for the reserved set the code builds from the column names of the RQ; without it the refutation *)
-Theorem generated_column_names_ci :
-  if GenIdentDialect.col_names_reserved
-  then forall lower rq_columns cols n l n',
-         (forall k, lower (gen_name cprefix k) = gen_name cprefix k) ->
-         (forall u, (exists d b, In (d, b) cols /\ (b = Some u \/ d = DSingle (Some u))) ->
-                    In u rq_columns \/ ((exists k, u = gen_name cprefix k) /\ ~ In (lower u) (code_col_reserved true lower rq_columns))) ->
-         split_names lower cprefix (code_col_reserved true lower rq_columns) cols [] n = Some (l, n') ->
-         forall x y, In x (somes l) -> In y (somes l) ->
-           ((exists k, x = gen_name cprefix k) /\ ~ In (lower x) (code_col_reserved true lower rq_columns)) -> x <> y -> lower x <> lower y
-  else exists cols n l n', split_names lower_ascii cprefix (code_col_reserved false lower_ascii []) cols [] n = Some (l, n') /\
-         exists x y k, In x (somes l) /\ In y (somes l) /\ x = gen_name cprefix k /\ x <> y /\ lower_ascii x = lower_ascii y.
-Proof. exact (column_ci_status cprefix GenIdentDialect.col_names_reserved _ generated_column_names_ci_refuted). Qed.
+(* FULL STATEMENT about the source (holds since fix 6cdd79f; finding F33b was its failure): with the reserved set the code
+   builds -- the lower-cased names of every column the RQ mentions -- and incoming names that are columns of the RQ or
+   names generated earlier, a generated column name differs case-insensitively from every other name of the split *)
+Theorem generated_column_names_ci : forall lower rq_columns cols n l n',
+  (forall k, lower (gen_name cprefix k) = gen_name cprefix k) ->
+  (forall u, (exists d b, In (d, b) cols /\ (b = Some u \/ d = DSingle (Some u))) ->
+             In u rq_columns \/ ((exists k, u = gen_name cprefix k) /\ ~ In (lower u) (code_col_reserved GenIdentDialect.col_names_reserved lower rq_columns))) ->
+  split_names lower cprefix (code_col_reserved GenIdentDialect.col_names_reserved lower rq_columns) cols [] n = Some (l, n') ->
+  forall x y, In x (somes l) -> In y (somes l) ->
+    ((exists k, x = gen_name cprefix k) /\ ~ In (lower x) (code_col_reserved GenIdentDialect.col_names_reserved lower rq_columns)) -> x <> y -> lower x <> lower y.
+Proof. exact (column_ci_status cprefix true True I). Qed.
 Print Assumptions generated_column_names_ci.
 
 (* ---------------------------------------------------------------- non-vacuity *)
@@ -320,6 +299,11 @@ Example c09_ex_split : split_names lower_ascii cprefix [] [(DSingle (Some (gen_n
                        = Some ([Some (gen_name cprefix 0); Some (gen_name cprefix 1); None; Some (gen_name cprefix 2)], 3).
 Proof. vm_compute. reflexivity. Qed.
 Example c09_ex_alias : select_item_alias lower_ascii cprefix [] [gen_name cprefix 0; gen_name cprefix 1] 0 = Some (gen_name cprefix 2, 3).
+Proof. vm_compute. reflexivity. Qed.
+(* what the reserved set buys (this was finding F33b): with nothing reserved a user column _EXPR_0 and the unnamed computed
+   column end up as _EXPR_0 and _expr_0, one name for SQLite *)
+Example c09_ex_split_unreserved : split_names lower_ascii cprefix [] [(DSingle (Some (upper_ascii cprefix ++ [48])), None); (DCompute, None)] [] 0
+                                  = Some ([Some (upper_ascii cprefix ++ [48]); Some (gen_name cprefix 0)], 1).
 Proof. vm_compute. reflexivity. Qed.
 (* with the repair: user column _EXPR_0 is reserved as _expr_0, the unnamed computed column becomes _expr_1 *)
 Example c09_ex_split_reserved : split_names lower_ascii cprefix (code_col_reserved true lower_ascii [upper_ascii cprefix ++ [48]])
